@@ -4,12 +4,14 @@ Built as a `lean_exe` (nothing below imports Mathlib).
 -/
 import Py65.Driver.Cpu
 import Py65.Driver.Handle
+import Py65.Driver.MonRun
 
 open Py65 Py65.Driver
 
 def handle (line : String) : String :=
   match tokens line with
   | "cpu" :: rest => runCpu rest
+  | "run" :: rest => runMonRun rest
   | toks => (handleBase toks).getD "bad-op"
 
 def main : IO Unit := do
